@@ -15,11 +15,12 @@ builds=skip; suite=skip; alarms=""; n=0
 if [ $applies = yes ]; then
   builds=fail; (cd "$wt" && go build ./... >/dev/null 2>&1) && builds=pass
   suite=fail
-  for try in 1 2 3; do
+  [ -n "${NEUTRAL_NOSUITE:-}" ] && suite=skipped
+  [ -z "${NEUTRAL_NOSUITE:-}" ] && for try in 1 2 3; do
     (cd "$wt" && timeout 1200 go test -vet=off -count=1 ./... >"$logdir/$name.suite.log" 2>&1) && { suite=pass; break; }
     grep -q "took too long" "$logdir/$name.suite.log" || break
   done
-  out=$(/verif/bin/gmcheck all --tier quick --no-evidence --repo "$wt" 2>&1 | grep -v '^   ')
+  out=$(${GMCHECK:-/verif/bin/gmcheck} all --tier quick --no-evidence --repo "$wt" 2>&1 | grep -v '^   ')
   alarms=$(echo "$out" | grep '^VIOLATION' | sed 's/.*property=\([A-Z0-9]*\).*/\1/' | sort -u | tr '\n' ' ')
   echo "$out" | grep -e '^VIOLATED' -e '^UNDECIDED' -e '^ERROR' | cut -c1-500 > "$logdir/$name.checks.log"
   n=$(wc -l < "$logdir/$name.checks.log")
